@@ -1,23 +1,39 @@
 CONFIG = {
     "id": "C16",
-    "coq_targets": ["Gen/FormulasShield.v", "Proofs/FormulasShieldProofs.v",
-                    "Props/C16.v", "Model/ShieldCheck.v"],
+    "coq_targets": ["Gen/FormulasShield.v", "Proofs/FormulasShieldProofs.v", "Model/ShieldRe.v",
+                    "Proofs/ShieldReProofs.v", "Props/C16.v", "Model/ShieldCheck.v"],
     "prop_files": ["Props/C16.v"],
     "gen": ["FormulasShield"],
     "components": [{
-        "name": "shield", "modules": ["Model.Shield", "Model.ShieldCheck"],
+        "name": "shield", "modules": ["Model.Shield", "Model.ShieldRe", "Model.ShieldCheck"],
         "check": "check_case", "monitor": "monitor_case", "model_out": "model_out",
         "case_type": "case",
-        "ops_path": [2],            # (unit pool, key pool, ops)
+        "ops_path": [3],            # (unit pool, key pool, listener slots, ops)
         "n_quick": 1000, "n_thorough": 30000, "shard": 250,
     }],
-    "rule": "op lists of 5-40 calls (serve a stat vector; AddShield with 0-5 formula terms, flat value, source and "
-            "target from 3 units, key from 4; RemoveShield; AbsorbDamage) on the real shield.Manager with a real "
-            "event.System and a fake attribute.Getter returning real info.Stats; 60% of the damage amounts aimed at a "
-            "present shield (exactly its strength, one ulp below/above, half, above the strongest), the rest from "
-            "{0,-0,negative,small,large,denormal}; stats/coefficients/bonuses from small pools incl. 0 and negative "
-            "ones; after every call all events (all fields), the return value and IsShielded/MaxShield/HasShield of "
-            "every unit and key are compared bit-exactly; a case is non-trivial when distinct as an input term",
+    "rule": "histories WITH RE-ENTRANT LISTENERS on the real shield.Manager (real event.System, fake attribute.Getter "
+            "returning real info.Stats): the input is 4-22 top-level calls (serve a stat vector; AddShield with 0-5 "
+            "formula terms, flat value, source and target from 3 units, key from 4; RemoveShield; AbsorbDamage) plus, "
+            "per event kind (ShieldAdded, ShieldRemoved, ShieldChange), a queue of listener scripts; the harness "
+            "subscribes one listener per event that pops the next script and executes its operations ON THE SAME "
+            "MANAGER while the emitting call is still running; scripts are mostly short (0-3 operations, empty about "
+            "half of the time), nested at most 3 deep, 4-36 nested operations per history, and are aimed at what the "
+            "outer call is working on: re-add the key being reported removed, remove what was just added / what a "
+            "later event of the same call names (the strongest shield of the ShieldChange), hit the same unit again so "
+            "that the same event fires inside itself, break every shield of the unit carrying the most while the outer "
+            "call still holds removals to announce (a quarter of the histories use flat-only shields of one strength so "
+            "that several break in one hit), touch another unit, change the stats getter; a fifth of the histories "
+            "have no listener scripts (5-40 calls, as before listeners existed); 60% of the damage amounts are aimed at "
+            "a present shield (exactly its strength, one ulp below/above, half, exactly / above the strongest), the "
+            "rest from {0,-0,negative,small,large,denormal}; stats/coefficients/bonuses from small pools incl. 0 and "
+            "negative ones.  Recorded and compared bit-exactly, in time order, nested calls included: every call "
+            "entered (with its arguments), every listener invocation (all event fields) together with "
+            "IsShielded/MaxShield/HasShield of every unit and key AS THE LISTENER SEES THEM, every return (return value "
+            "of AbsorbDamage) with the same probe right after it.  The monitor reads the trace with a stack of open "
+            "calls and demands, per call (outer or nested): the state at its first emission, the state before it, its "
+            "own events and its return value satisfy the property's per-call predicate, and the call writes nothing "
+            "after its first emission (the visible state at each later own event and at the return equals the last "
+            "state observed).  A case is non-trivial when distinct as an input term",
     "trusted": [
         "TRANSLATED from the Go source on every run and proved equal to the model for every numeric instance and "
         "every argument (Gen/FormulasShield.v; Proofs/FormulasShieldProofs.v; theorem "
@@ -26,6 +42,15 @@ CONFIG = {
         "shape for k in order { v, ok := m[k]; if !ok {continue}; switch k {case K: acc += v * e} }), "
         "AbsorbDamage's loop body (both math.Dim uses, lowest remainder, strongest remaining shield) and its "
         "initial values; the fold of the generated body is proved to be what do_absorb computes",
+        "RE-ENTRANT LISTENERS (Model/ShieldRe.v, hand-written, correspondence only): where each Emit sits relative to "
+        "the stores of AddShield / RemoveShield / AbsorbDamage was read off the Go source (every store precedes the "
+        "first emission of the call; AbsorbDamage announces its removals from a private list and builds ShieldChange "
+        "and its return value from locals computed before the first emission) and is NOT translated: a source edit "
+        "that moves a store behind an Emit, reuses a buffer across calls or recomputes an event field after listeners "
+        "ran is seen by the correspondence on generated re-entrant histories, not by a proof obligation; listener "
+        "behaviour is data (a queue of scripts of the manager's own four operations per event kind, an exhausted "
+        "queue = a listener that does nothing); listeners of other components reacting to shield events and "
+        "listeners that panic are outside the model",
         "still HAND-WRITTEN (correspondence only): replace-or-append in AddShield, removal of exhausted shields "
         "and the events, RemoveShield, the getters; the table model.ShieldFormula value -> constructor of "
         "Shield.fkind is part of the translator (checked against the constants' current values); the shield "
@@ -47,21 +72,36 @@ CONFIG = {
                 "duality is checked on every implementation trace by the monitor (finite values)",
                 "math.Dim is modelled as `v := x - y; if v <= 0 {0} else {v}` (its Go 1.23 source)",
                 "info.Stats.ATK/DEF/HP of the fake getter are statCalc(base, 0, 0+0), written into the model"],
-    "assumptions": ["the formula map of a shield has distinct keys (it is a Go map)",
+    "assumptions": ["re-entrant theorems: the model run does not end OutOfFuel (fuel bounds the nesting depth; proved "
+                    "unreachable when fuel exceeds the number of operations in all listener scripts, which is the fuel "
+                    "the correspondence uses); per-call clauses hold at the call's COMMIT (state stored, before its first "
+                    "emission): what a call leaves behind when it returns also contains what its listeners did "
+                    "(C16_whole_call_meets_spec_refuted / _partial), and the payload of a later event of a call describes "
+                    "the commit, not the moment of delivery (C16_change_event_is_current_refuted, "
+                    "C16_removed_means_absent_refuted)",
+                    "the formula map of a shield has distinct keys (it is a Go map)",
                     "strictly-positive survivors / non-negative strength need non-NaN inputs; a shield added with a "
                     "negative or NaN strength (negative coefficients or bonuses below -1) stays until the next absorb"],
     "manifest": {
-        "level_text": "Translator tie (way 1): the strength formula of AddShield and the loop body of AbsorbDamage are regenerated from shield/add.go and shield/absorb.go on every run (go2coq FormulasShield) and proved EQUAL to the model's definitions for all inputs; "
+        "level_text": "Histories WITH re-entrant listeners (listener scripts of the manager's own operations run inside "
+                      "every emission, any nesting depth): the trace of every such history is proved to be explained by "
+                      "flat atomic steps - every call, top-level or nested, is entered in the flat state of the calls "
+                      "entered before it, with unique keys, meets the per-call specification there, delivers exactly the "
+                      "events of that step to listeners that see that flat state, and returns the step's value; fuel above "
+                      "the number of script operations never runs out; without scripts the model is the flat model. "
+                      "Translator tie (way 1): the strength formula of AddShield and the loop body of AbsorbDamage are regenerated from shield/add.go and shield/absorb.go on every run (go2coq FormulasShield) and proved EQUAL to the model's definitions for all inputs; "
                       "Kernel-checked theorems over an executable Gallina model of the shield manager (all sequences of "
-                      "add/remove/absorb, every numeric instance for the structural clauses, reals for the algebra, "
+                      "add/remove/absorb with and without re-entrant listener scripts, every numeric instance for the "
+                      "structural clauses, reals for the algebra, "
                       "binary64 for the signs), tied to the Go code by bit-exact correspondence on generated histories "
                       "and a trace monitor on the implementation.",
         "level_note": "go2coq FormulasShield translator + kernel-checked equalities generated = model; "
-                      "Coq kernel; hand-written model Model/Shield.v; correspondence harness; IEEE rounding gap between "
+                      "Coq kernel; hand-written models Model/Shield.v (atomic calls) and Model/ShieldRe.v (emission points, listener scripts); correspondence harness; IEEE rounding gap between "
                       "the binary64 and real instances for the strength formula and the min/max duality.",
         "technique": "source-to-Coq translation of the formulas with equality proofs + "
-                     "Coq proof (invariant over op lists, NumOps instances at float and R) + model/implementation "
-                     "correspondence + monitor",
+                     "Coq proof (invariant over op lists, NumOps instances at float and R; listeners as data: script "
+                     "queues interpreted with fuel, reduction of re-entrant traces to flat atomic steps by induction on "
+                     "fuel) + model/implementation correspondence on re-entrant histories + stack monitor",
         "design_ref": "DESIGN.md section 7, C16",
     },
 }
